@@ -4,23 +4,44 @@
 #ifndef NATIVE_REPLAY
 /* ghost: the input line is g_in[0..g_len], g_in[g_len] == 0, no NUL before */
 const char *g_in; int g_len;
-int g_bad;
+int g_bad; unsigned char g_badc;   /* ghost position and the byte at it (tied in the preconditions: one array read instead of one per clause) */
+#ifndef LINE_MAX_OBJ
 #define LINE_MAX_OBJ 10000   /* CBMC object-size choice only */
+#endif
 
 /* filter: reads only inside the NUL-terminated input, writes only filter_str[0..99], leaves it
- * NUL-terminated (it arrives zeroed), returns a position inside the input */
-int filter_assembly_str_fsa__c(const char unfiltered_str[], char filter_str[])
-  __CPROVER_requires(g_len >= 0 && g_len <= LINE_MAX_OBJ && __CPROVER_is_fresh(unfiltered_str, g_len + 1) && g_in == unfiltered_str)
-  __CPROVER_requires(unfiltered_str[g_len] == '\0')
-  __CPROVER_requires(__CPROVER_is_fresh(filter_str, FILTERED_STR_LEN) && filter_str[FILTERED_STR_LEN - 1] == '\0')
-  __CPROVER_requires(g_bad >= 0 && g_bad <= g_len)
-  __CPROVER_assigns(__CPROVER_object_whole(filter_str))
-  __CPROVER_ensures(__CPROVER_return_value == ASM_ERROR || (__CPROVER_return_value >= 0 && __CPROVER_return_value <= g_len))
+ * NUL-terminated (it arrives zeroed), returns a position inside the input.
+ * FILTER_CONTRACT(VALID_IN, VALID_OUT): enforcement form with is_fresh, usage form with r_ok / rw_ok. */
+int g_q; char g_qc;   /* ghost index: one arbitrary position of the line (instead of a quantifier), and the character at it */
+#define FILTER_PRE(VALID_IN, VALID_OUT) \
+  __CPROVER_requires(g_len >= 0 && g_len <= LINE_MAX_OBJ && VALID_IN(unfiltered_str, g_len + 1) && g_in == unfiltered_str) \
+  __CPROVER_requires(unfiltered_str[g_len] == '\0') \
+  __CPROVER_requires(VALID_OUT(filter_str, FILTERED_STR_LEN) && filter_str[FILTERED_STR_LEN - 1] == '\0' && filter_str[0] == '\0') \
+  __CPROVER_requires(g_bad >= 0 && g_bad <= g_len && g_q >= 0 && g_q <= g_len) \
+  __CPROVER_assigns(__CPROVER_object_whole(filter_str)) \
+  __CPROVER_ensures(__CPROVER_return_value == ASM_ERROR || (__CPROVER_return_value >= 0 && __CPROVER_return_value <= g_len)) \
   __CPROVER_ensures(filter_str[FILTERED_STR_LEN - 1] == '\0')
-  /* C10: the part of the line the filter has scanned (up to the returned position) holds no byte above 0x7e -
-   * stated for one arbitrary position g_bad (ghost index instead of a quantifier); hence such a byte before the
-   * line/comment terminator makes the filter return the error */
-  __CPROVER_ensures(__CPROVER_return_value >= 0 && g_bad < __CPROVER_return_value ==> (unsigned char)unfiltered_str[g_bad] <= 0x7e);
+/* A (C10): the part of the line the filter has scanned (up to the returned position) holds no byte above 0x7e - \
+ * stated for one arbitrary position g_bad (ghost index instead of a quantifier); hence such a byte before the \
+ * line/comment terminator makes the filter return the error */
+#define FILTER_POST_A \
+  __CPROVER_ensures(__CPROVER_return_value >= 0 && g_bad < __CPROVER_return_value ==> (unsigned char)unfiltered_str[g_bad] <= 0x7e)
+/* B: the scanned part holds no line end, comment character or NUL (arbitrary position g_q) */
+#define FILTER_POST_B \
+  __CPROVER_requires(g_qc == unfiltered_str[g_q])   /* the ghost character is the one at the ghost position */ \
+  __CPROVER_ensures(__CPROVER_return_value >= 0 && g_q < __CPROVER_return_value ==> \
+      (g_qc != '\n' && g_qc != '\r' && g_qc != '\0' && g_qc != ';' && g_qc != '%'))
+/* C: the kept text is empty or starts at the first letter-range character of the line */
+#define FILTER_POST_C \
+  __CPROVER_ensures(__CPROVER_return_value >= 0 ==> (filter_str[0] == '\0' || (filter_str[0] >= 'A' && filter_str[0] <= 'z')))
+/* enforcement forms: the three postcondition groups are proved in three runs (each with the loop
+ * invariant it needs; the conjunction in one run exhausts memory); usage form: all of them */
+int filter_assembly_str_fsa__c(const char unfiltered_str[], char filter_str[]) FILTER_PRE(__CPROVER_is_fresh, __CPROVER_is_fresh) FILTER_POST_A;
+int filter_assembly_str_fsa__cB(const char unfiltered_str[], char filter_str[]) FILTER_PRE(__CPROVER_is_fresh, __CPROVER_is_fresh) FILTER_POST_B;
+int filter_assembly_str_fsa__cC(const char unfiltered_str[], char filter_str[]) FILTER_PRE(__CPROVER_is_fresh, __CPROVER_is_fresh) FILTER_POST_C;
+int filter_assembly_str_fsa__u(const char unfiltered_str[], char filter_str[]) FILTER_PRE(__CPROVER_r_ok, __CPROVER_rw_ok) FILTER_POST_A FILTER_POST_B FILTER_POST_C;
+/* usage form without group A (a caller that does not need the non-ASCII clause: fewer symbolic reads) */
+int filter_assembly_str_fsa__uBC(const char unfiltered_str[], char filter_str[]) FILTER_PRE(__CPROVER_r_ok, __CPROVER_rw_ok) FILTER_POST_B FILTER_POST_C;
 #endif
 #endif
 #ifndef NATIVE_REPLAY
@@ -77,7 +98,7 @@ int operand_tok__c(struct instr *instr_buffer, char *opds, int opd_pos)
   __CPROVER_ensures(__CPROVER_return_value == EXIT_SUCCESS || __CPROVER_return_value == EXIT_FAILURE);
 
 int instr_tok__c(struct instr *instr_buffer, char *comp_instr)
-  TOK_PRE(instr_buffer, comp_instr) __CPROVER_requires(comp_instr == g_buf && comp_instr[0] >= 'a' && comp_instr[0] <= 'z')
+  TOK_PRE(instr_buffer, comp_instr) __CPROVER_requires(comp_instr == g_buf && comp_instr[0] >= 'A' && comp_instr[0] <= 'z')   /* what the filter leaves at the start of a non-empty line */
   TOK_FRAME(instr_buffer) TOK_POST(instr_buffer)
   __CPROVER_ensures(__CPROVER_return_value == EXIT_SUCCESS || __CPROVER_return_value == EXIT_FAILURE);
 #endif
@@ -103,12 +124,36 @@ int instr_tok__c(struct instr *instr_buffer, char *comp_instr)
                     !(I)->hex.is_66H && !(I)->hex.is_67H && (I)->op_offset == 0 && (I)->rd_offset == 0)
 
 /* table look-up: a row is returned only if it lists the operand format */
-int str_to_instr_key__c(char *instruction, operand_format opd_layout)
-  __CPROVER_requires(__CPROVER_r_ok(instruction, INSTRUCTION_CHAR_LEN) && instruction[INSTRUCTION_CHAR_LEN - 1] == 0)
-  __CPROVER_assigns()
-  __CPROVER_ensures(__CPROVER_return_value == INSTR_ERROR ||
-      (__CPROVER_return_value >= 3 && __CPROVER_return_value <= 317 &&
-       (INSTR_TABLE[__CPROVER_return_value].opd_format[0] == (int)opd_layout || INSTR_TABLE[__CPROVER_return_value].opd_format[1] == (int)opd_layout)));
+/* one contract text, two validity predicates: __c (r_ok) is the form used at call sites inside other
+ * proofs (the pointer already exists there), __e (is_fresh) the form the real body is enforced against */
+/* DFCC makes every object of static lifetime nondeterministic at the start of a proof, the two
+ * first-letter index tables included.  In the program they are zero-initialised (C11 6.7.9p10) and
+ * then filled by asm_build_index_tables on every asm_create_instance; harnesses that call the real
+ * asm_build_index_tables restore the zero initialisation first. */
+#define STATIC_ZERO_INIT_INDEX_TABLES() do { for (int k_ = 0; k_ < LETTERS_IN_ALPHABET; k_++) { instr_table_index[k_] = 0; opd_format_table_index[k_] = 0; } } while (0)
+/* what the look-up needs of the index table: the entry of the mnemonic's first letter is a row number
+ * (0 for a letter without mnemonic: the scan then starts at the top) */
+#define IDX_ENTRY_OK(c) (!((c) >= 'a' && (c) <= 'z') || (instr_table_index[(c) - 'a'] >= 0 && instr_table_index[(c) - 'a'] <= 317))
+#define STREQ14(a, b) ((a)[0] == (b)[0] && ((a)[0] == 0 || ((a)[1] == (b)[1] && ((a)[1] == 0 || ((a)[2] == (b)[2] && ((a)[2] == 0 || ((a)[3] == (b)[3] && ((a)[3] == 0 || ((a)[4] == (b)[4] && ((a)[4] == 0 || ((a)[5] == (b)[5] && ((a)[5] == 0 || ((a)[6] == (b)[6] && ((a)[6] == 0 || ((a)[7] == (b)[7] && ((a)[7] == 0 || ((a)[8] == (b)[8] && ((a)[8] == 0 || ((a)[9] == (b)[9] && ((a)[9] == 0 || ((a)[10] == (b)[10] && ((a)[10] == 0 || ((a)[11] == (b)[11] && ((a)[11] == 0 || ((a)[12] == (b)[12] && ((a)[12] == 0 || ((a)[13] == (b)[13] && (a)[13] == 0)))))))))))))))))))))))))))
+/* ghost: second argument of the last string comparison that found equality (recorded by strcmp__rec) */
+const char *g_eq_s2;
+#define ROW_OF(p) ((long)(__CPROVER_POINTER_OFFSET(p) / sizeof(struct instr_table)))
+#define STR_TO_INSTR_KEY_CONTRACT(VALID) \
+  __CPROVER_requires(VALID(instruction, INSTRUCTION_CHAR_LEN) && instruction[INSTRUCTION_CHAR_LEN - 1] == 0) \
+  __CPROVER_requires(IDX_ENTRY_OK(instruction[0])) \
+  __CPROVER_assigns(g_eq_s2) \
+  __CPROVER_ensures(__CPROVER_return_value == INSTR_ERROR || \
+      (__CPROVER_return_value >= 3 && __CPROVER_return_value <= 317 && \
+       (INSTR_TABLE[__CPROVER_return_value].opd_format[0] == (int)opd_layout || INSTR_TABLE[__CPROVER_return_value].opd_format[1] == (int)opd_layout))) \
+  /* the row belongs to the group of a mnemonic-bearing row whose name is exactly the text looked up: \
+   * an unknown mnemonic is never accepted, and no row of another mnemonic is returned */ \
+  __CPROVER_ensures(__CPROVER_return_value == INSTR_ERROR || \
+      (__CPROVER_same_object(g_eq_s2, INSTR_TABLE) && ROW_OF(g_eq_s2) >= 3 && ROW_OF(g_eq_s2) <= 317 && \
+       g_eq_s2 == INSTR_TABLE[ROW_OF(g_eq_s2)].instr_name && \
+       INSTR_TABLE[ROW_OF(g_eq_s2)].name == INSTR_TABLE[__CPROVER_return_value].name && \
+       STREQ14(instruction, INSTR_TABLE[ROW_OF(g_eq_s2)].instr_name)))
+int str_to_instr_key__c(char *instruction, operand_format opd_layout) STR_TO_INSTR_KEY_CONTRACT(__CPROVER_r_ok);
+int str_to_instr_key__e(char *instruction, operand_format opd_layout) STR_TO_INSTR_KEY_CONTRACT(__CPROVER_is_fresh);
 
 /* register look-up: none, an error marker, or mode bits | number of one register class */
 #define REGCODE_OK(v) ((v) <= 0x7ff && ((v) == reg_none || ((v) & reg_error) || \
@@ -182,4 +227,12 @@ operand_format get_opd_format__c(char *opd_en)
 int strcmp__any(const char *s1, const char *s2)
   __CPROVER_requires(__CPROVER_r_ok(s1, 1) && __CPROVER_r_ok(s2, 1))
   __CPROVER_assigns();
+/* assumed contract of strcmp on strings shorter than 14 characters (ISO C 7.24.4.2): zero exactly for
+ * equal strings; the ghost records the second argument of a comparison that found equality */
+int strcmp__rec(const char *s1, const char *s2)
+  __CPROVER_requires(__CPROVER_r_ok(s1, 1) && __CPROVER_r_ok(s2, 1))
+  __CPROVER_assigns(g_eq_s2)
+  __CPROVER_ensures((__CPROVER_return_value == 0) == (STREQ14(s1, s2) != 0))
+  __CPROVER_ensures(__CPROVER_return_value != 0 || g_eq_s2 == s2)
+  __CPROVER_ensures(__CPROVER_return_value == 0 || g_eq_s2 == __CPROVER_old(g_eq_s2));
 #endif
